@@ -3,6 +3,8 @@ import _ledgerquery as lq
 
 
 def run(ctx):
+    if ctx.replay_in:
+        lq.replay_mode(ctx)
     try:
         _run(ctx)
     finally:
